@@ -174,3 +174,75 @@ func ContentDigest(data []byte, info *Info, h crypto.Hash) []byte {
 	top.Write(chunkDigests.Bytes())
 	return top.Sum(nil)
 }
+
+func lp(b []byte) []byte {
+	out := make([]byte, 4, 4+len(b))
+	binary.LittleEndian.PutUint32(out, uint32(len(b)))
+	return append(out, b...)
+}
+
+func u32(v uint32) []byte {
+	var b [4]byte
+	binary.LittleEndian.PutUint32(b[:], v)
+	return b[:]
+}
+
+// Rebuild replaces the APK Signing Block of a v2-signed APK by a new one that lists the
+// given certificates, is signed through the sign callback (RSA PKCS#1 v1.5 id 0x0103 or ECDSA id 0x0201, SHA-256) and names
+// spki as the signer's public key. With the certificate's own key and SubjectPublicKeyInfo
+// this is an ordinary re-signing; with another key it is a forgery that keeps the
+// original certificate list.
+func Rebuild(data []byte, certs [][]byte, spki []byte, sign func(digest []byte) ([]byte, uint32, error)) ([]byte, error) {
+	info, err := Parse(data)
+	if err != nil {
+		return nil, err
+	}
+	digest := ContentDigest(data, info, crypto.SHA256)
+	h := crypto.SHA256.New()
+	var certSeq []byte
+	for _, c := range certs {
+		certSeq = append(certSeq, lp(c)...)
+	}
+	// the digest record names the signature algorithm it belongs to
+	mkSigned := func(alg uint32) []byte {
+		dig := lp(append(u32(alg), lp(digest)...))
+		return append(append(lp(dig), lp(certSeq)...), lp(nil)...)
+	}
+	// the algorithm id depends on the key type, which sign reports; compute twice if needed
+	signed := mkSigned(0x0103)
+	h.Write(signed)
+	sig, alg, err := sign(h.Sum(nil))
+	if err != nil {
+		return nil, err
+	}
+	if alg != 0x0103 {
+		signed = mkSigned(alg)
+		h.Reset()
+		h.Write(signed)
+		if sig, alg, err = sign(h.Sum(nil)); err != nil {
+			return nil, err
+		}
+	}
+	sigs := lp(append(u32(alg), lp(sig)...))
+	signer := append(append(lp(signed), lp(sigs)...), lp(spki)...)
+	value := lp(lp(signer))
+	pair := make([]byte, 8, 12+len(value))
+	binary.LittleEndian.PutUint64(pair, uint64(4+len(value)))
+	pair = append(append(pair, u32(v2BlockID)...), value...)
+	size := uint64(len(pair) + 8 + 16)
+	var block []byte
+	var sz [8]byte
+	binary.LittleEndian.PutUint64(sz[:], size)
+	block = append(block, sz[:]...)
+	block = append(block, pair...)
+	block = append(block, sz[:]...)
+	block = append(block, magic...)
+	out := append([]byte{}, data[:info.SigningBlockOffset]...)
+	out = append(out, block...)
+	cdStart := len(out)
+	out = append(out, data[info.CDOffset:info.EOCDOffset]...)
+	eocd := append([]byte{}, data[info.EOCDOffset:]...)
+	binary.LittleEndian.PutUint32(eocd[16:], uint32(cdStart))
+	out = append(out, eocd...)
+	return out, nil
+}
